@@ -266,3 +266,78 @@ pub fn c13_primnames() -> i32 {
     }
     report(found, tried)
 }
+
+// ---------------------------------------------------------------------------------------------
+// C18 / C08: U-DERIVES through the public API (upcast_composite, FlatDerivesRegistry::resolve)
+pub fn c18_upcast() -> i32 {
+    use scale_typegen::typegen::ir::type_ir::CompositeIR;
+    use std::collections::HashSet;
+    let mut tried = 0;
+    let mut found = None;
+    let reg = registry(vec![]);
+    let a: syn::Path = syn::parse_quote!(A);
+    let b: syn::Path = syn::parse_quote!(::b::B);
+    let ca: syn::Path = syn::parse_quote!(::codec::CompactAs);
+    let attr: syn::Attribute = syn::parse_quote!(#[x(y)]);
+    let prim = |p: usize| TypePath::from_type(TypePathType::Primitive { def: PRIMS[p].clone() });
+    'o: for with_ca in [false, true] { for codec in [false, true] { for shape in 0..7usize {
+        let mut settings = TypeGeneratorSettings::default();
+        let mut d = DerivesRegistry::new();
+        d.add_derives_for_all([a.clone(), b.clone()]);
+        d.add_attributes_for_all([attr.clone()]);
+        settings.derives = d;
+        if with_ca { settings.compact_as_type_path = Some(ca.clone()); }
+        settings.insert_codec_attributes = codec;
+        let (kind, eligible, what) = match shape {
+            0 => (CompositeIRKind::NoFields, false, "no fields"),
+            1 => (CompositeIRKind::Unnamed(vec![CompositeFieldIR::new(prim(5), false, false)]), true, "(u32)"),
+            2 => (CompositeIRKind::Unnamed(vec![CompositeFieldIR::new(prim(5), false, false), CompositeFieldIR::new(prim(0), false, false)]), false, "(u32, bool)"),
+            3 => (CompositeIRKind::Named(vec![(syn::parse_quote!(f), CompositeFieldIR::new(prim(7), true, false))]), true, "{f: u128}"),
+            4 => (CompositeIRKind::Named(vec![(syn::parse_quote!(f), CompositeFieldIR::new(prim(0), false, false))]), false, "{f: bool}"),
+            5 => (CompositeIRKind::Unnamed(vec![CompositeFieldIR::new(prim(8), false, false)]), false, "(u256)"),
+            _ => (CompositeIRKind::Unnamed(vec![CompositeFieldIR::new(prim(12), false, true)]), false, "(Box<i64>)"),
+        };
+        let comp = CompositeIR::new(syn::parse_quote!(S), kind, Default::default());
+        let gen = TypeGenerator::new(&reg, &settings);
+        tried += 1;
+        let ir = gen.upcast_composite(&comp);
+        let mut want: HashSet<syn::Path> = [a.clone(), b.clone()].into_iter().collect();
+        if with_ca && eligible { want.insert(ca.clone()); }
+        let want_attrs: HashSet<syn::Attribute> = [attr.clone()].into_iter().collect();
+        let why = if ir.derives.derives() != &want { Some(format!("derives {:?} != expected {:?}", ir.derives.derives().len(), want.len())) }
+            else if ir.derives.attributes() != &want_attrs { Some("attributes differ from the global attributes".to_string()) }
+            else if ir.insert_codec_attributes != codec { Some("insert_codec_attributes differs from the setting".to_string()) } else { None };
+        if let Some(w) = why { found = Some((format!("upcast_composite of {what}, CompactAs configured: {with_ca}, codec attributes: {codec}"), w)); break 'o; }
+    } } }
+    report(found, tried)
+}
+
+pub fn c08_resolve() -> i32 {
+    use std::collections::HashSet;
+    let mut tried = 0;
+    let mut found = None;
+    let reg = registry(vec![]);
+    let a: syn::Path = syn::parse_quote!(A);
+    let b: syn::Path = syn::parse_quote!(B);
+    let at1: syn::Attribute = syn::parse_quote!(#[one]);
+    let at2: syn::Attribute = syn::parse_quote!(#[two]);
+    let p1: syn::TypePath = syn::parse_quote!(m::P1);
+    let p2: syn::TypePath = syn::parse_quote!(m::P2);
+    let mut d = DerivesRegistry::new();
+    d.add_derives_for_all([a.clone()]);
+    d.add_attributes_for_all([at1.clone()]);
+    d.add_derives_for(p1.clone(), [b.clone()], false);
+    d.add_attributes_for(p1.clone(), [at2.clone()], false);
+    let flat = d.flatten_recursive_derives(&reg).unwrap();
+    for (p, wd, wa) in [(&p1, vec![a.clone(), b.clone()], vec![at1.clone(), at2.clone()]), (&p2, vec![a.clone()], vec![at1.clone()])] {
+        tried += 1;
+        let r = flat.resolve(p);
+        let wd: HashSet<syn::Path> = wd.into_iter().collect();
+        let wa: HashSet<syn::Attribute> = wa.into_iter().collect();
+        if r.derives() != &wd || r.attributes() != &wa {
+            found = Some((format!("resolve({}) with default {{A, #[one]}} and specific m::P1 {{B, #[two]}}", quote::quote!(#p)), format!("got {} derives / {} attributes, expected {} / {}", r.derives().len(), r.attributes().len(), wd.len(), wa.len())));
+            break;
+        }
+    }
+    report(found, tried)
+}
